@@ -4,6 +4,10 @@ from checks import lach_common as lc
 
 
 def run(c):
+    # DAGs found by TLC simulation of Election.tla: a multi-frame root causes a decision at one of its lower frames and the
+    # re-vote then decides more frames; the application seals on the second of those blocks
+    casc = lc.run_exhaustive(c, ["corpus:cascade"], "sealing", orders=2)
+    c.guard("corpus_seals_inside_a_cascade", casc["total"].get("traced_seals_inside_a_cascade_of_a_multi_frame_root", 0))
     res = lc.run_profile(c, "c09", c.pick(10, 100), "sealing")
     st = res["stats"]
     c.guard("seals", st.get("seals", 0))
